@@ -19,14 +19,19 @@ ASSUMPTIONS = [
     "the operations of the models are atomic: the expiry tick is modelled between datagrams, and (SocksFlows.v, KCut) at the one place where setting a flow up really waits, the SOCKS5 association; "
     "that no other await of the two directions is cut short rests on the fact that exchange_once is no longer dropped on a tick",
     "scripted SOCKS5 server and relay on loopback (c15_udp_front): replies are waited for 1.5 s per datagram and 2 s more at the end; a closed relay port is a port bound and released just before",
+    "descriptor counts (c07_run op 4, c15_udp_front scenario 7) are the entries of /proc/self/fd that link to socket:[..], compared with a count taken in the same harness "
+    "process before the first flow: nothing but the flows opens or closes a socket in that process between the two counts (cases of one process run one after the other, "
+    "each on a runtime of its own that is dropped at its end); /proc unreadable = 996",
 ]
 RULE = ("operation histories over up to 6 flows (distinct client sources; destinations: two echo servers, a port-53 echo server, a closed port, an unconnectable address): "
         "client datagrams, sleeps (short, medium, longer than T + T/4), gauge/liveness observations; families: mixed traffic, expiry and reuse of the same pair, "
         "partial expiry with one refreshed flow, failing flows between healthy traffic, DNS flows released on answer; every datagram carries the direct oracle "
         "(echo flows: delivered to exactly their destination through their own socket and answered with the reversed label; the multiplexer stays alive; "
-        "gauge = number of live flows); through the endpoint over a SOCKS5 upstream: a fault confined to one association (malformed relay packet = read error, "
-        "closed relay port = refused sends) and a slow UDP ASSOCIATE under a short UDP timeout, with a second client source going on: the tunnel stays open and every "
-        "datagram not addressed to the faulty association is answered, including later ones on the pair that failed; non-trivial = every case; distinct = distinct history")
+        "gauge = number of live flows; family descriptors: the socket descriptors open in the process, counted relative to their number before the first flow, "
+        "= number of live flows while the whole multiplexer is silent past the timeout); through the endpoint over a SOCKS5 upstream: a fault confined to one association (malformed relay packet = read error, "
+        "closed relay port = refused sends, a UDP ASSOCIATE that is never answered) and a slow UDP ASSOCIATE under a short UDP timeout, with a second client source going on: the tunnel stays open and every "
+        "datagram not addressed to the faulty association is answered, including later ones on the pair that failed; two associations fall idle and "
+        "their descriptors (process table, control connections at the SOCKS5 server) are released; non-trivial = every case; distinct = distinct history")
 RETRY_PREFIX = "live"
 
 T = 800
@@ -82,6 +87,13 @@ class Builder:
         self.ops.append([3, self.t - 2])
         self.expect_gauge.append(len(self.la))
 
+    def probe(self):
+        """like observe, and the socket descriptors of the process are counted as well"""
+        self._settle(30)
+        self.t += 32
+        self.ops.append([4, self.t - 2])
+        self.expect_gauge.append(len(self.la))
+
 
 def scenario(rng, family):
     b = Builder()
@@ -134,6 +146,20 @@ def scenario(rng, family):
         b.dgram(bad[0], 4)
         b.dgram(flows[0], 4)
         b.observe()
+    elif family == "descriptors":
+        # flows are opened, then the whole multiplexer falls silent for longer than the timeout: nothing is sent or received
+        # while the flows expire; then one pair is used again
+        some = flows + ([rng.choice(CLOSED)] if rng.below(2) else [])
+        b.probe()
+        for f in some:
+            b.dgram(f, rng.choice([1, 100, 1200]))
+        b.probe()
+        b.sleep(T + P + MARGIN + rng.choice([20, 300]))
+        b.probe()
+        b.sleep(rng.choice([T // 2, T]))
+        b.probe()
+        b.dgram(flows[0], 5)
+        b.probe()
     else:  # dns
         b.dgram(dns, 30)
         b.observe()
@@ -156,6 +182,12 @@ def gen_cases(rng, ctx):
         model = line("c07_run", [[T]] + b.ops)
         cases.append(Case(impl, model, kind="live:" + fam, nontrivial=True,
                           meta={"ops": b.ops, "gauge": b.expect_gauge}))
+    # the descriptors themselves (the model has sockets only as table entries): socket descriptors open in the harness process,
+    # relative to their number before the first flow, against the number of live flows; the whole multiplexer is idle while flows expire
+    for i in range(8 if thorough else 3):
+        b = scenario(rng, "descriptors")
+        impl = line("c07_run", [[T]] + [op[:3] if op[0] == 1 else op[:2] if op[0] == 2 else [op[0]] for op in b.ops])
+        cases.append(Case(impl, None, kind="live:descriptors", nontrivial=True, meta={"ops": b.ops, "gauge": b.expect_gauge, "no_model": True}))
     # the multiplexer through the real endpoint (Core::listen): CONNECT _udp2 over HTTP/1.1-TLS, HTTP/2-TLS, HTTP/3-QUIC
     for proto in (1, 2, 3):
         for flows_, rounds, ln in ((3, 2, 20), (4, 5, 1200), (1, 1, 0)) + (((6, 6, 600), (2, 20, 64)) if thorough else ()):
@@ -173,9 +205,14 @@ def gen_cases(rng, ctx):
     # a fault confined to one association of the SOCKS5 upstream while another client source goes on: 2 = the relay answers a datagram with
     # a packet that is too short (error on the reading side), 3 = the association's relay port is closed (sends are refused), 4 = the SOCKS5
     # server answers UDP ASSOCIATE after 150 ms with a UDP timeout of 400 ms (the expiry timer runs while a flow is being set up)
-    for fault in (2, 3, 4):
+    # 5 = the SOCKS5 server never answers the UDP ASSOCIATE of one client source (establishment timeout 700 ms) while another source goes on
+    for fault in (2, 3, 4, 5):
         l = line("c15_udp_front", [[0, 0, 0, 0, fault]])
         cases.append(Case(l, None, kind="live:socks5-association-fault", nontrivial=True, meta={"socks_fault": fault}))
+    # two associations of the SOCKS5 upstream fall idle (UDP timeout 400 ms) while the client's tunnel stays open: their descriptors
+    # (relay socket and control connection each) have to be released, seen in the process's descriptor table and by the SOCKS5 server
+    l = line("c15_udp_front", [[0, 0, 0, 0, 7]])
+    cases.append(Case(l, None, kind="live:socks5-descriptors", nontrivial=True, meta={"socks_fds": True}))
     # an error on the reading side of a flow's socket (the peer answered and went away, the client sent once more)
     for t in ([300, 200, 500] if thorough else [300, 200]):
         l = line("c07_read_error", [[t]])
@@ -211,14 +248,35 @@ def judge(case, impl, model, spec, ctx):
         if replies + 2 < sent:
             return [("violation", "%s: only %d of %d replies on the second flow came back (the expiry of one flow disturbed another)" % (what, replies, sent))]
         return []
+    if case.meta.get("socks_fds"):
+        toks = [untok(t) for t in impl.split()]
+        st, closed = toks[0][:2]
+        what = ("UDP multiplexer over a SOCKS5 upstream, UDP timeout 400 ms: client sources 10.8.0.2:4000 and :4001 exchange one datagram each with "
+                "203.0.113.7:5353 (one association = control connection + relay socket per source) and fall silent for 1600 ms, the tunnel stays open")
+        if st != 200:
+            return [("disagree", "%s: CONNECT _udp2 answered %d" % (what, st))]
+        if closed or len(toks) < 4:
+            return [("violation", "%s: the multiplexer ended (the endpoint closed the tunnel)" % what)]
+        before, live, idle, ctl_live, ctl_idle = toks[1]
+        if [r for _, _, r in toks[2:]] != [1, 1]:
+            return [("violation", "%s: replies came back for %s" % (what, " ".join("%d/%d:%s" % (p, t, "yes" if r else "no") for p, t, r in toks[2:])))]
+        if live <= before or ctl_live != 2:
+            return [("disagree", "%s: %d socket descriptors before the flows, %d with both flows live, %d association control connections at the server" % (what, before, live, ctl_live))]
+        if idle > before or ctl_idle:
+            return [("violation", "%s: after the silence %d socket descriptor(s) of the expired flows are still open in the process (%d before the flows, %d while they "
+                                  "were live) and the SOCKS5 server still holds %d of their control connections: the sockets of expired flows are not released "
+                                  "while the multiplexer is idle" % (what, max(idle - before, 0), before, live, ctl_idle))]
+        return []
     if case.meta.get("socks_fault"):
         fault = case.meta["socks_fault"]
         toks = [untok(t) for t in impl.split()]
-        st, closed = toks[0]
+        st, closed = toks[0][:2]
         what = "UDP multiplexer over a SOCKS5 upstream, client sources 10.8.0.2:4000.. to 203.0.113.7:5353, one association per source; " + {
             2: "the relay answers the third datagram (source port 4000) with a packet that is too short, i.e. a read error on that association",
             3: "the relay port named for the association of source port 4000 is closed, i.e. its sends are refused",
             4: "the SOCKS5 server answers UDP ASSOCIATE after 150 ms, the UDP timeout is 400 ms (expiry timer every 100 ms), the datagrams of a pair follow each other within 200 ms",
+            5: "the SOCKS5 server never answers the UDP ASSOCIATE for source port 4001 (establishment timeout 700 ms, UDP timeout 2000 ms); source port 4000 sends "
+               "300 ms later and twice more, each reply awaited for 1.5 s (and 2 s more at the end)",
         }[fault]
         if st != 200:
             return [("disagree", "%s: CONNECT _udp2 answered %d" % (what, st))]
@@ -229,11 +287,13 @@ def judge(case, impl, model, spec, ctx):
             return [("violation", "%s: the multiplexer ended (the endpoint closed the tunnel) %s; datagrams source port/tag: %s" % (what, why, sent))]
         # a reply is owed to every datagram except those whose association is the faulty one at that moment: the datagram answered with
         # the malformed packet (tag 238), and everything sent through the closed relay port (source port 4000 under fault 3)
-        owed = [(p, t, r) for p, t, r in steps if t != 0xEE and not (fault == 3 and p == 4000)]
+        # (fault 5: everything of source port 4001, whose association is never made)
+        faulty = {3: 4000, 5: 4001}.get(fault)
+        owed = [(p, t, r) for p, t, r in steps if t != 0xEE and p != faulty]
         missing = [(p, t) for p, t, r in owed if not r]
         if missing:
             p, t = missing[0]
-            other = fault != 4 and p != 4000
+            other = fault != 4 and p != {5: 4001}.get(fault, 4000)
             return [("violation", "%s: the datagram with tag %d of source port %d got no reply (%s); datagrams source port/tag: %s"
                      % (what, t, p, "the fault of one flow disturbed another" if other else "a later datagram on the pair did not start a fresh flow", sent))]
         return []
@@ -297,6 +357,19 @@ def judge(case, impl, model, spec, ctx):
             elif r[1] != case.meta["gauge"][gi]:
                 out.append(("violation", "op %d: outbound_udp_sockets gauge is %d with %d live flows" % (n, r[1], case.meta["gauge"][gi])))
             gi += 1
-    if not out and impl != model:
+        elif op[0] == 4:
+            _, now, base, gauge, alive = r
+            live = case.meta["gauge"][gi]
+            last = max([o[3] for o in ops[:n] if o[0] == 1] or [0])
+            if alive != 1:
+                out.append(("violation", "op %d: the multiplexer terminated (exchange() returned) after a per-flow event" % n))
+            elif now - base != live:
+                out.append(("violation", "op %d (about %d ms after the last datagram, UDP timeout %d ms): %d socket descriptors are open in the process beyond the %d that "
+                                         "were open before the first flow, with %d live flows (outbound_udp_sockets gauge %d): the open sockets do not follow the live flows"
+                            % (n, op[1] - last, T, now - base, base, live, gauge)))
+            elif gauge != live:
+                out.append(("violation", "op %d: outbound_udp_sockets gauge is %d with %d live flows" % (n, gauge, live)))
+            gi += 1
+    if not out and not case.meta.get("no_model") and impl != model:
         out.append(("disagree", "model and implementation differ: impl %s model %s" % (impl, model)))
     return out[:1]
